@@ -629,6 +629,13 @@ func (p *Parser) parseIfExpression() ast.Node {
 
 		if p.peekTokenIs(token.IF) {
 			p.nextToken()
+			// Each 'else if' is one more level of recursion here and of depth in the tree.
+			p.nesting++
+			defer func() { p.nesting-- }()
+			if p.nesting > MaxNesting {
+				p.addError(fmt.Sprintf("expressions nested too deeply (more than %d levels)", MaxNesting))
+				return nil
+			}
 			expression.Alternative = &ast.Statements{Statements: []ast.Node{p.parseIfExpression()}}
 			return expression
 		}
